@@ -77,12 +77,13 @@ def schedule_scenarios(seed, n):
             dim = 2
         method = rnd.choice(["DualAverage", "DualAverage", "Adam", {"Fixed": 0.25}])
         if preset == "flow_mclmc":
-            # step-size adaptation driven by MCLMC acceptance statistics can shrink the step until a draw
-            # takes ~1e6 leapfrogs; keep those runs on a benign target
-            if rnd.random() < 0.6:
-                method = {"Fixed": 0.25}
-            else:
+            # step-size adaptation driven by MCLMC acceptance statistics can shrink the step until a single draw takes
+            # ~1e6 leapfrogs (gigabytes of events, whatever the target): the flow MCLMC runs keep a fixed step size; the
+            # external strategy with an adapted step size is exercised by the flow NUTS runs, MCLMC with the global
+            # strategy by the diag / low-rank MCLMC presets (whose step size the crate fixes itself)
+            if rnd.random() >= 0.6:
                 dens = DENS[0]
+            method = {"Fixed": 0.25}
         sss = {"jitter": rnd.choice([None, 0.0, 0.1]), "adapt_options": {"method": method}}
         # configured (non-default) estimator options: an own random generator so that the rest of the scenario does not shift
         ro = random.Random(seed * 977 + i)
